@@ -7,6 +7,7 @@ fork/wait/ptrace — is exercised by the 16-way concurrent differential (harness
 PROPERTY THEOREMS ONLY (helper lemmas are private).
 -/
 import GoSandbox.Model.Concurrent
+import GoSandbox.Model.ForkFail
 namespace GoSandbox.Props.C17
 open GoSandbox.Model.Concurrent
 
@@ -208,5 +209,33 @@ every method that talks on the control socket runs under the environment mutex. 
 theorem C17_source_facts :
     waitSitesOwn = true ∧ tracePinned = true ∧ forkLockAroundClone = true ∧ creationsAtomic = true ∧ rpcUnderMutex = true := by
   decide +kernel
+
+/-! ### a descriptor another run's child still holds: the launch waits for it instead of failing -/
+section Etxtbsy
+open GoSandbox.Model.ForkFail GoSandbox.Model.ForkSkeleton GoSandbox.Model.ForkOpts GoSandbox.Model.ForkChildRun
+
+/-- option sets around the exec step: with and without a filter, an exec descriptor, a synchronisation callback,
+a tracer, namespaces and a capability drop -/
+def etxtbsyFamily : List Opts :=
+  [{}, { seccomp := true, nnp := true }, { execFile := 7 }, { execFile := 7, seccomp := true, nnp := true, syncFunc := true },
+   { seccomp := true, ptrace := true, stopBefore := true }, { seccomp := true, nnp := true, dropCaps := true, newUser := true, newPid := true, syncFunc := true },
+   { cred := true, dropCaps := true, seccomp := true, nnp := true, ucas := true, syncFunc := true, newCgroup := true }]
+
+/-- **a program file that another run's child still holds open for writing** (the child was forked by another
+goroutine while the caller was writing the file, and has not exec'ed yet: a copy of every descriptor of the process
+lives in it until then) makes `execve` answer ETXTBSY for a moment.  The regenerated launch code does not fail the
+run for that: for every option set of the family — in particular with a seccomp filter already loaded — an
+ETXTBSY at the exec step is followed by a pause and another exec, and the program starts. (The tolerance itself is
+bounded: 50 attempts a millisecond apart; beyond that the launch fails with the error.) -/
+theorem C17_gen_etxtbsy_retried :
+    etxtbsyFamily.all (fun o =>
+      let k := (skeleton o).length - 1
+      ((skeleton o).getD k .getpid == .execve || (skeleton o).getD k .getpid == .execveat) &&
+      (match runFail o k 26 with
+       | .ok r => r.execed && r.exitCode == none && r.reported == none
+       | .error _ => false)) = true := by
+  decide +kernel
+
+end Etxtbsy
 
 end GoSandbox.Props.C17
